@@ -19,7 +19,8 @@ CLAIMS = {
         "equation of Li2 applied inside its domain (matched by content) around the code's Pade core, which is within 5e-14 of the power series on the whole interval the paths use; Clausen "
         "function: documented argument reduction (odd, 2 pi periodic, reflection; the two-term 2 pi within 1e-19) around two Pade kernels within 1e-14 of the Bernoulli series; complex "
         "dilogarithm: every branch enters the Bernoulli series inside its domain of fast convergence, is exactly sgn S(u) + rest with the documented inversion/reflection formula, the real Horner scheme is the "
-        "polynomial, the coefficient table is B_2k/(2k+1)!, and the truncation leaves a relative remainder <= 1e-13.",
+        "polynomial, the coefficient table is B_2k/(2k+1)!, and the truncation leaves a relative remainder <= 1e-13.  IEEE level (not the real-arithmetic abstraction): for EVERY double of the domain "
+        "(18 loop functions on [1e-14,1e12], dilog and Cl2 on +-[1e-300,1e300]) the value returned is finite -- execution of the extracted functions on sets of doubles (gm2v/fpset.py), no sampling.",
    note=NOTE_COMMON + "Undecided remainder (not claimed): IEEE rounding inside each branch (in particular cancellation in the closed forms at large argument and the relative accuracy of Cl2 "
         "next to its zeros, where the rounded argument dominates); relative accuracy of the real dilogarithm next to "
         "the zero of Re Li2 at x = 12.595 (absolute 5e-14 Li2(y) only).",
@@ -69,7 +70,7 @@ CLAIMS = {
         "amu1Lapprox with and without resummation, tan_beta_cor, Delta_mu/tau/b, the two-loop fermion/sfermion approximations and their log corrections are invariant under negating "
         "Mu, M1, M2, M3, A_f, T_f; every sfermion mass matrix keeps trace and determinant, the chargino matrix its singular-value invariants, the neutralino matrix becomes -P Y P (all masses "
         "invariant); amu1LChi0, amu1LChipm, the photonic and 2L(a) contributions are invariant under the induced change of the mixing matrices (N -> iNP, U_sf -> U_sf diag(1,-1), U -> U s3, V -> -V s3). "
-        "Callee contracts: Iabc, |.|, abs_sqrt are functions of the squares of their arguments (checked on the real bodies).",
+        "Callee contracts on the public functions (independent of how helpers are split): Iabc is even in each argument (everything that reaches its sorting step, every path condition and the result), abs_sqrt(x)^2 == |x| and abs_sqrt(x) >= 0.",
    note=NOTE_COMMON + "That the real diagonalisation routines return the induced mixing matrices for the flipped matrices is A-LINALG (unique up to the phase conventions the functions are shown invariant "
         "under only for these representatives); loop functions uninterpreted (A-SPECFN); rounding differences (relative 1e-9 in the property) not covered: identities are exact over the reals.",
    technique="relational symbolic execution of the extracted code on a state and its sign-flipped copy + ring normalisation of the difference", design='5 C06'),
@@ -107,21 +108,24 @@ CLAIMS = {
         "v^2 = 4 MW^2 sw^2/(4 pi alpha) and m_h = m_hSM = m, amu1L and amu2L_F_neutral are independent of the common mass m (the light-Higgs terms cancel the subtracted "
         "SM terms identically, loop functions uninterpreted); amu2L_B_EWadd is proportional to cos(beta-alpha) zeta_l; amu2L_B_Yuk(cba) - amu2L_B_Yuk(0) at m_H = m_hSM "
         "reduces to the single term YF2 zeta_l cba (the difference coefficients a001, a501, a5z1 vanish); the three parameter fillers hand exactly the documented model getters to the kernels; "
-        "callee contracts re-registered: dxlog series (C11), definitions of f_PS, f_S, f_CSl, F1, F1~, F2, F3 (C01).",
-   note=NOTE_COMMON + "NOT decided (stated): the decoupling rate (v/M)^2 of the genuine BSM terms (an asymptotic statement outside contracts); the chain model -> y_f^h = m_f/v at cos(beta-alpha)=0 "
+        "callee contracts re-registered: dxlog series (C11), definitions of f_PS, f_S, f_CSl, F1, F1~, F2, F3 (C01).  Fourteen two-loop bosonic kernels (T0, T1, T5, T6, T9, T10, YF1, YFW, YFZ, YF2, YF3, b, Fm0, Fmp) "
+        "equal, on every path and for ALL arguments, the definitions of the repository's own reference file math/THDMTwoLoopB.m (parsed on every run) as ring identities in the arguments and ln, Li2, f_PS, Phi "
+        "(argument shifts = identity; lemma Phi(x,y,y) = x/(2y) f_PS(y/x)(x-4y) assumed) -- so the decoupling of the published formulas is what the code computes.  BOUNDED stand-in for the decoupling ratio itself: "
+        "real library on 8 gauge-basis families x 4 heavy scales, |a(M sqrt10)| <= 0.45 |a(M)| per component (one open finding: rounding noise at 31.6 TeV, KNOWN-FINDING).",
+   note=NOTE_COMMON + "NOT decided by contracts (stated): the decoupling rate (v/M)^2 of the genuine BSM terms (an asymptotic statement: bounded sweep only, labelled bounded); T2/T4/T7/T8, amu2L_B_EWadd and the assembly in amu2L_B_nonYuk/Yuk are not compared with the reference file (different but equivalent special-function bases); the chain model -> y_f^h = m_f/v at cos(beta-alpha)=0 "
         "uses C09's getter contracts; ring normalisation (sympy) is in the trusted base for the two rational-function identities.",
-   technique="relational lemmas: symbolic execution of extracted kernels + z3 NRA / ring normalisation (sympy)", design='5 C10'),
+   technique="relational lemmas: symbolic execution of extracted kernels + z3 NRA / ring normalisation (sympy); reference formulas parsed from math/THDMTwoLoopB.m; bounded native sweep for the decoupling ratio", design='5 C10'),
  'C11': dict(
    text="Contracts on the THDM two-loop bosonic kernels and all their helpers (YF1, YFZ, YFW, YF2, YF3, T0, T1, dxlog, TX, T4-T6, T9, T10, fb, Fm0, Fmp, amu2L_B_nonYuk, "
         "amu2L_B_Yuk, amu2L_B_EWadd): on every path and for ALL mass ratios in [1e-6,1e4] with 3/5 < cw2 < 19/20 every denominator is non-zero and every logarithm/square root is in its "
         "domain -- each shift guard removes the pole it is meant for and no unguarded pole remains (with and, per function, without the assumption that two removable singularities do not "
         "coincide); helpers are called inside their preconditions (modular); the guard in amu2L_B_EWadd only moves the argument (the unguarded temporary is dead downstream); the quark Barr-Zee functions FCWu, FCWd, f_CSu, f_CSd, phi_over_y "
         "under their documented/physical preconditions (xu yd == xd yu; down-type quark lighter than half the W and H+- masses) and their call sites fuHp/fdHp; dxlog's series "
-        "has the Taylor coefficients of its definition.  Counterexamples are replayed on the real code along the property's one-parameter path with the property's own 1%-band criterion.  MSSM: tan_alpha() returns the negative root of t x^2 + 2x - t = 0 (t = tan 2 alpha) on BOTH sides of M_A = M_Z for all tan(beta) != 1; at M_A == M_Z exactly -1 (BOUNDED: IEEE execution at 60 points).  FLOATING-POINT side contract (standard model, u = 2^-53; not an A-REAL statement): the two guards with which phi_over_y recognises a zero of its denominator are above the rounding noise of the tested expression (guard constant >= 4 u mag(E)), so the exact coincidence m_H+ = m_t +- m_b takes the analytic limit.",
+        "has the Taylor coefficients of its definition.  Counterexamples are replayed on the real code along the property's one-parameter path with the property's own 1%-band criterion.  MSSM: tan_alpha() returns the negative root of t x^2 + 2x - t = 0 (t = tan 2 alpha) on BOTH sides of M_A = M_Z for all tan(beta) != 1; at M_A bit-identical to M_Z exactly -1 for ALL tan(beta) in [1e-3,1e3] and M_Z in [1e-3,1e5] in IEEE round-to-nearest arithmetic (execution of the extracted function on sets of doubles, gm2v/fpset.py; no sampling).  The 20 one-argument loop/special functions return a finite number for EVERY double of their domain (same back end).  FLOATING-POINT side contract (standard model, u = 2^-53; not an A-REAL statement): the two guards with which phi_over_y recognises a zero of its denominator are above the rounding noise of the tested expression (guard constant >= 4 u mag(E)), so the exact coincidence m_H+ = m_t +- m_b takes the analytic limit.",
    note=NOTE_COMMON + "NOT decided: the 1% band itself (size of the cancellations between pole terms after a shift of 1e-8) and everything about rounding; the neutral fermionic two-loop, the one-loop THDM and "
         "the MSSM functions are covered for this property only through the loop-function contracts of C01/C02 (equal-argument branches).  T7/T8 (complex square roots) only through their call-site preconditions. "
         "Four fixed findings (Kaellen zeros, m_h = 2 m_W, guard onto the pole at m_h = m_Z, guard order in YF3).",
-   technique="symbolic execution of the extracted kernels; side obligations (denominator != 0, log/sqrt domains) discharged by z3 NRA on all paths; modular call-site preconditions; counterexample replay on the real code", design='5 C11'),
+   technique="symbolic execution of the extracted kernels; side obligations (denominator != 0, log/sqrt domains) discharged by z3 NRA on all paths; modular call-site preconditions; IEEE set-enclosure execution of the extracted function (all doubles of a box) for tan_alpha at M_A == M_Z; counterexample replay on the real code", design='5 C11'),
  'C12': dict(
    text="The wrapper layers of src/gm2_linalg.hpp (fs_diagonalize_hermitian, fs_svd, fs_diagonalize_symmetric and the internal reorder_*/ *_errbd functions) are executed symbolically "
         "with Eigen's two solvers replaced by their documented contracts (svd_eigen: m = U diag(S) Vh, unitary factors, S descending >= 0; hermitian_eigen: m = Z diag(W) Z^dagger, Z unitary, "
@@ -149,7 +153,7 @@ CLAIMS = {
  'C14': dict(
    text="The contract-decidable part of C14: every float->int conversion executed by the readers is defined (in range) for ALL doubles; option readers accept exactly their documented values; "
         "block readers never index a line beyond its fields and write matrices/vectors in bounds only; numeric token conversion throws only EReadError; no exception class raised inside "
-        "main()'s try block escapes its handlers; every failure exit emits a diagnostic.  The read_integer conversion obligation failed on the pinned tree (UBSan-confirmed) and was fixed.  An exception that reaches the boundary of a noexcept function is the effect std::terminate, which no handler stops: main() must not reach one.",
+        "main()'s try block escapes its handlers; every failure exit emits a diagnostic; fill_block_entry, through which the SPINFO diagnostics are written, sets exactly the named block's entry for every position of that block in the file (frame over the whole SLHA view, native replay).  The read_integer conversion obligation failed on the pinned tree (UBSan-confirmed) and was fixed.  An exception that reaches the boundary of a noexcept function is the effect std::terminate, which no handler stops: main() must not reach one.",
    note=NOTE_COMMON + "NOT decided and not claimed: termination within bounded time, leaks, uninitialised memory, behaviour of the SLHAea tokenizer and iostreams on arbitrary bytes, signals -- "
         "they need execution, which is outside this technique family.",
    technique="side obligations of symbolic execution (conversion/index ranges) + exception-effect inference on main", design='5 C14'),
@@ -176,7 +180,7 @@ CLAIMS = {
    text="Contracts on all 137 extern \"C\" functions: nothrow by exception-effect inference over the extracted bodies (callee throw contracts inferred bottom-up, try/catch filtering, "
         "logging macros that stream a model included); every calculation wrapper returns exactly its C++ counterpart on the same model with the extra arguments in order; "
         "each MSSM C setter followed by the matching getter returns the value set and changes no other entry (through the real C++ accessors, all index combinations); the five "
-        "error-code wrappers map exception classes to codes one-to-one; the THDM struct conversions copy every C field to the C++ field of the same name; the string getters "
+        "error-code wrappers map exception classes to codes one-to-one and hand the C++ method exactly their own arguments, everything else being left to the C++ defaults of the public header (C call without parameters == C++ call without parameters; replay: C vs C++ on slowly converging spectra); the THDM struct conversions copy every C field to the C++ field of the same name; the string getters "
         "write only inside [msg, msg+len) for every len including 0 (CBMC, bit-precise unsigned arithmetic).  13 obligations failed on the pinned tree (12 leaking forwarders, "
         "len==0 wrap-around), every one replayed on the real code, and were repaired by three fix: commits.  THDM handles: for every previous value of the caller's handle variable a failing constructor leaves *model == 0 and returns the code of the exception class; success stores the new object; a null out-parameter is rejected without a write.",
    note=NOTE_COMMON + "Library calls without a body in the extracted sources are assumed not to throw and allocation failure is ignored (listed in the evidence); 'bit-for-bit' beyond the wrapper body "
@@ -191,10 +195,10 @@ CLAIMS = {
  'C19': dict(
    text="Purity as frame contracts: every scalar loop/special/running-mass function of the C profile (63 functions) has the write frame __CPROVER_assigns() enforced by CBMC/DFCC for all "
         "arguments, with function-local statics hoisted to file scope by the extractor so that a memo or cache is a frame violation; every a_mu, contribution and uncertainty function "
-        "taking a model (32 MSSM, 7x3 THDM, plus the THDM mass and mixing-angle getters) leaves every data member of the model (nested objects included) unchanged on every path, writes no "
+        "taking a model (32 MSSM, 7x3 THDM, plus the THDM mass and mixing-angle getters) leaves every data member of the model (nested objects included) unchanged on every path (isnan/isfinite tests on members are explored both ways, so a lazy cache behind a NaN sentinel is a frame violation), writes no "
         "file-scope variable and executes no static declaration (symbolic execution with before/after comparison of the whole object).  Determinism and history independence follow "
         "from the empty frames; thread-safety is argued from them (no shared writable state) -- no schedule is explored.  Local variables with static OR thread storage duration must be const and initialised from compile-time constants only (data members, this and calls of non-library functions count as run-time data); no function touches ambient thread/process state (floating-point environment and its sticky flags, errno, clocks, random generators, environment, locale, thread ids).",
-   note=NOTE_COMMON + "Loop functions, decomposition routines and THDM kernels enter the model-level frames by their own frame contracts; supporting syntactic scan for mutable/const_cast/thread_local and "
+   note=NOTE_COMMON + "Loop functions, decomposition routines and THDM kernels enter the model-level frames by their own frame contracts; supporting syntactic scan of src/ and include/ for mutable/const_cast/thread_local and "
         "non-const namespace-scope variables; data races inside Eigen/libstdc++ and the ThreadSanitizer-style exploration named in the quantifier are outside contract-based verification.",
    technique="frame conditions: CBMC DFCC assigns-clause enforcement + symbolic execution frame comparison", design='5 C19'),
  'C20': dict(
